@@ -34,42 +34,47 @@ Warms(o) == IF o \in {"o1", "o3"} THEN {"k1", "k2"} ELSE {"k2", "kerr"}
 Op(name, a, b) == [name |-> name, a |-> a, b |-> b]
 VARIABLES mc, usecache, cache, result, hist,
           held,       \* the MasterConfig under which the held (created, not yet parsed) description was made; NoHeld: none
-          cfgobj      \* what the caller's shared Config object says about the default directions (NoHeld: nothing)
-vars == <<mc, usecache, cache, result, hist, held, cfgobj>>
+          cfgobj,     \* what the caller's shared Config object says about the default directions (NoHeld: nothing)
+          asked       \* the layout of the probes' text has been asked for with a restricted list of candidates
+vars == <<mc, usecache, cache, result, hist, held, cfgobj, asked>>
 Init == mc = Default /\ usecache = TRUE /\ cache = [k \in {} |-> "ok"] /\ result = Pure("trs_attrs", Default) /\ hist = <<>>
-        /\ held = NoHeld /\ cfgobj = NoHeld
+        /\ held = NoHeld /\ cfgobj = NoHeld /\ asked = FALSE
 
 Warm(c, ks) == IF usecache THEN [k \in DOMAIN c \cup ks |-> IF k \in DOMAIN c THEN c[k] ELSE "ok"] ELSE c
 Step(op) == Len(hist) < MaxOps /\ hist' = Append(hist, op)
-SetMC == \E n \in NS : \E e \in EW : mc' = [ns |-> n, ew |-> e] /\ Step(Op("set_mc", n, e)) /\ UNCHANGED <<usecache, cache, result, held, cfgobj>>
-RestoreMC == mc' = Default /\ Step(Op("restore_mc", "-", "-")) /\ UNCHANGED <<usecache, cache, result, held, cfgobj>>
-ClearCache == cache' = [k \in {} |-> "ok"] /\ Step(Op("clear_cache", "-", "-")) /\ UNCHANGED <<mc, usecache, result, held, cfgobj>>
-SetUseCache == \E b \in {"on", "off"} : usecache' = (b = "on") /\ Step(Op("use_cache", b, "-")) /\ UNCHANGED <<mc, cache, result, held, cfgobj>>
-ParseOther == \E o \in Others : cache' = Warm(cache, Warms(o)) /\ Step(Op("parse_other", o, "-")) /\ UNCHANGED <<mc, usecache, result, held, cfgobj>>
-MakeTRS == \E k \in Keys : cache' = Warm(cache, {k}) /\ Step(Op("make_trs", k, "-")) /\ UNCHANGED <<mc, usecache, result, held, cfgobj>>
+SetMC == \E n \in NS : \E e \in EW : mc' = [ns |-> n, ew |-> e] /\ Step(Op("set_mc", n, e)) /\ UNCHANGED <<usecache, cache, result, held, cfgobj, asked>>
+RestoreMC == mc' = Default /\ Step(Op("restore_mc", "-", "-")) /\ UNCHANGED <<usecache, cache, result, held, cfgobj, asked>>
+ClearCache == cache' = [k \in {} |-> "ok"] /\ Step(Op("clear_cache", "-", "-")) /\ UNCHANGED <<mc, usecache, result, held, cfgobj, asked>>
+SetUseCache == \E b \in {"on", "off"} : usecache' = (b = "on") /\ Step(Op("use_cache", b, "-")) /\ UNCHANGED <<mc, cache, result, held, cfgobj, asked>>
+ParseOther == \E o \in Others : cache' = Warm(cache, Warms(o)) /\ Step(Op("parse_other", o, "-")) /\ UNCHANGED <<mc, usecache, result, held, cfgobj, asked>>
+MakeTRS == \E k \in Keys : cache' = Warm(cache, {k}) /\ Step(Op("make_trs", k, "-")) /\ UNCHANGED <<mc, usecache, result, held, cfgobj, asked>>
 \* the caller modifies a dict / list it got from a conversion function
 Mutate == \E k \in {"k1", "k2"} : \E via \in MutateVia :
             /\ cache' = IF Fault = "share_dict" /\ via = "trs_to_dict_obj" /\ k \in DOMAIN cache
                         THEN [cache EXCEPT ![k] = "bad"] ELSE Warm(cache, {k})
-            /\ Step(Op("mutate", k, via)) /\ UNCHANGED <<mc, usecache, result, held, cfgobj>>
+            /\ Step(Op("mutate", k, via)) /\ UNCHANGED <<mc, usecache, result, held, cfgobj, asked>>
 \* a description is created with wait_to_parse under the defaults in force now, and kept
-Hold == held' = mc /\ Step(Op("hold", "-", "-")) /\ UNCHANGED <<mc, usecache, cache, result, cfgobj>>
+Hold == held' = mc /\ Step(Op("hold", "-", "-")) /\ UNCHANGED <<mc, usecache, cache, result, cfgobj, asked>>
 \* the caller builds a tract from components with explicit default directions, handing in the shared Config object:
 \* the library reads the object, it does not write to it
 UseCfg == /\ cfgobj' = (IF Fault = "cfg_obj_written" THEN [ns |-> "s", ew |-> "e"] ELSE cfgobj)
           /\ cache' = Warm(cache, {"k1"})
-          /\ Step(Op("use_cfg", "s", "e")) /\ UNCHANGED <<mc, usecache, result, held>>
+          /\ Step(Op("use_cfg", "s", "e")) /\ UNCHANGED <<mc, usecache, result, held, asked>>
+\* deduce_layout(candidates=[...]) on the text the description probes use: a question, it leaves nothing behind
+AskLayout == asked' = TRUE /\ Step(Op("ask_layout", "-", "-")) /\ UNCHANGED <<mc, usecache, cache, result, held, cfgobj>>
 Probe == \E p \in Probes :
            /\ result' = (IF \E k \in Reads(p) : k \in DOMAIN cache /\ cache[k] = "bad" THEN [p |-> p, ns |-> "corrupt", ew |-> "corrupt"]
                          ELSE IF Fault = "freeze_default" THEN Pure(p, Default)
                          ELSE IF Fault = "held_keeps_defaults" /\ p = "held_parse" /\ held # NoHeld THEN Pure(p, held)
                          ELSE IF p = "cfg_parse" /\ cfgobj # NoHeld THEN Pure(p, cfgobj)
+                         ELSE IF Fault = "layout_remembered" /\ asked /\ p \in {"plss_full", "plss_nodir"}
+                              THEN [p |-> p, ns |-> "corrupt", ew |-> "corrupt"]
                          ELSE Pure(p, mc))
            /\ cache' = Warm(cache, Reads(p))
            \* (held_parse parses the held object, or a new one if there is none; the object stays)
            /\ held' = IF p = "held_parse" /\ held = NoHeld THEN mc ELSE held
-           /\ Step(Op("probe", p, "-")) /\ UNCHANGED <<mc, usecache, cfgobj>>
-Next == SetMC \/ RestoreMC \/ ClearCache \/ SetUseCache \/ ParseOther \/ MakeTRS \/ Mutate \/ Hold \/ UseCfg \/ Probe
+           /\ Step(Op("probe", p, "-")) /\ UNCHANGED <<mc, usecache, cfgobj, asked>>
+Next == SetMC \/ RestoreMC \/ ClearCache \/ SetUseCache \/ ParseOther \/ MakeTRS \/ Mutate \/ Hold \/ UseCfg \/ AskLayout \/ Probe
 Spec == Init /\ [][Next]_vars
 
 CacheSound == \A k \in DOMAIN cache : cache[k] = "ok"
